@@ -61,7 +61,7 @@ def _map_time_agg_error(msg: str, msg_lower: str) -> RunTimeError:
     return RunTimeError("2-1-19-1", value=value, new_indicator=new_indicator)
 
 
-def _map_query_error(error: duckdb.Error, sql_query: str) -> Exception:
+def _map_query_error(error: duckdb.Error, sql_query: str, result_name: str = "") -> Exception:
     """Map a DuckDB query execution error to a VTL exception.
 
     Patterns:
@@ -148,6 +148,11 @@ def _map_query_error(error: duckdb.Error, sql_query: str) -> Exception:
     # Logarithm of a negative number (log(x, negative_base))
     if "cannot take logarithm of a negative number" in msg_lower:
         return RunTimeError("2-1-15-3", op="log", value="negative")
+
+    # Any other value-dependent DuckDB runtime error (integer overflow, argument outside
+    # the domain of a function such as sqrt, value that cannot be converted)
+    if isinstance(error, duckdb.DataError):
+        return RunTimeError("2-1-1-1", op=result_name or "run", error=msg)
 
     # Return original error if no mapping found
     return error
@@ -530,7 +535,7 @@ def execute_queries(
         try:
             conn.execute(f'CREATE TABLE "{result_name}" AS {sql_query}')
         except duckdb.Error as e:
-            mapped = _map_query_error(e, sql_query)
+            mapped = _map_query_error(e, sql_query, result_name)
             if mapped is not e:
                 raise mapped from e
             raise
